@@ -188,3 +188,5 @@ ben("c05-inner-product-tensordot", "C05", "_spectral.py", "    operator = jnp.ei
 ben("c01-diffusion-tensordot", "C01", "stepper/_diffusion.py", "        linear_operator = jnp.einsum(\n            \"ij,ij...->...\",\n            self.diffusivity,\n            laplace_outer_producct,\n        )", "        linear_operator = jnp.tensordot(self.diffusivity, laplace_outer_producct, axes=2)", "double contraction written as tensordot")
 ben("c03-gs-lax-select-free", "C03", "nonlin_fun/_gradient_norm.py", "        u_gradient_norm_squared = jnp.sum(u_gradient**2, axis=1)", "        u_gradient_norm_squared = jnp.sum(jnp.square(u_gradient), axis=1)", "square instead of **2")
 ben("c16-mean-metric-take", "C16", "metrics/_utils.py", "    return jnp.mean(metric_per_sample, axis=0)", "    return jnp.sum(metric_per_sample, axis=0) / jnp.size(metric_per_sample)", "mean as sum / size")
+mut("c01-general-linear-polyval-total", "C01", "stepper/generic/_linear.py", "        linear_operator = sum(\n            jnp.sum(\n                c * (derivative_operator) ** i,\n                axis=0,\n                keepdims=True,\n            )\n            for i, c in enumerate(self.linear_coefficients)\n        )\n        return linear_operator", "        coefficients = jnp.asarray(self.linear_coefficients)[::-1]\n        total_derivative = jnp.sum(derivative_operator, axis=0, keepdims=True)\n        linear_operator = jnp.polyval(coefficients, total_derivative)\n        return linear_operator", "Horner on the axis-summed operator: cross terms (seeded S39)")
+ben("c01-general-linear-polyval-per-axis", "C01", "stepper/generic/_linear.py", "        linear_operator = sum(\n            jnp.sum(\n                c * (derivative_operator) ** i,\n                axis=0,\n                keepdims=True,\n            )\n            for i, c in enumerate(self.linear_coefficients)\n        )\n        return linear_operator", "        coefficients = jnp.asarray(self.linear_coefficients)[::-1]\n        linear_operator = jnp.sum(jnp.polyval(coefficients, derivative_operator), axis=0, keepdims=True)\n        return linear_operator", "Horner per axis, then summed: the documented symbol")
